@@ -324,6 +324,7 @@ def check_decrements(ctx, facts):
 
 def check_recount(ctx, facts):
     from .core.slicing import origins
+    from .core.symexpr import expr, show, strip_refs
     b = facts.body("walrus::Walrus::rebuild_topic_entry_counts_after_recovery")
     ctx.saw_body(b)
     F = common.short_fn(b.name)
@@ -382,6 +383,61 @@ def check_recount(ctx, facts):
         else:
             ctx.violate("C15.4", F, "recount-partial-ignores-persisted-position", b.relfile, c.line,
                         "the partial-block count does not depend on the persisted (block, offset) pair (block: %s, limit: %s)" % (sorted(fb), sorted(fl)))
+    # the persisted tail block is looked up in the WHOLE recovered chain: the comparison of a chain block's id
+    # with the persisted block id is evaluated per element of an iteration over the chain
+    searched = False
+    where = None
+    bodies = [b] + facts.closures_of(b)
+    for c in bodies:
+        eqs = []
+        for site, st in c.assigns():
+            rv = st["rv"]
+            if rv["k"] == "bin" and rv["op"] in ("Eq", "Ne"):
+                eqs.append((site, rv["a"], rv["b"]))
+        for T in all_tests(c):
+            if T.kind == "cmp" and T.op in ("Eq", "Ne"):
+                eqs.append((T.site if T.site else None, T.a, T.b))
+        for site, a, bb_ in eqs:
+            sa, sb = show(strip_refs(expr(c, a)), 8), show(strip_refs(expr(c, bb_)), 8)
+            if not (sa.endswith(".id") or sb.endswith(".id")):
+                continue
+            other = sb if sa.endswith(".id") else sa
+            if not ("tail_block_id" in other or "cur_block_idx" in other):
+                continue
+            where = (c, site)
+            if c is not b:
+                # closure: which call receives it?
+                for call in b.calls():
+                    for a_ in call.node["args"]:
+                        d = b.def_rvalue(op_local(a_)) if op_local(a_) is not None else None
+                        if d and d[0] == "rv" and d[1]["k"] == "agg" and d[1].get("akind") == "closure" and strip_generics(d[1].get("name", "")) == strip_generics(c.name):
+                            cn = strip_generics(callee_name(call.node))
+                            recv = show(strip_refs(expr(b, call.node["args"][0])), 8)
+                            if re.search(r"Iterator>?::(position|rposition|find|find_map|rfind|any)$", cn) and ".chain" in recv:
+                                searched = True
+            else:
+                bbx = site.bb if site is not None else None
+                if bbx is not None:
+                    hb, L = b.enclosing_loop(bbx)
+                    while L is not None:
+                        t = b.term(hb)
+                        if t["k"] == "call" and re.search(r"Iterator>?::next$", strip_generics(t.get("callee") or "")) and ".chain" in show(strip_refs(expr(b, t["args"][0])), 10):
+                            searched = True
+                            break
+                        # outer loop
+                        up = b.idom[hb] if not isinstance(b.idom, dict) else b.idom.get(hb)
+                        if up is None or up == hb:
+                            break
+                        hb2, L2 = b.enclosing_loop(up)
+                        if hb2 is None or hb2 == hb:
+                            break
+                        hb, L = hb2, L2
+    if searched:
+        ctx.ok("C15.4", F, "the persisted tail block is searched by id over the whole recovered chain", b.relfile, where[1].line if where and where[1] is not None else b.line)
+    else:
+        ctx.violate("C15.4", F, "persisted-tail-block-not-searched-in-chain", b.relfile, where[1].line if where and where[1] is not None else b.line,
+                    "the block named by a persisted tail position is not looked up by id in the whole recovered chain (an iteration over the chain comparing each block's id): when the "
+                    "writer rotated after the position was persisted, that block is no longer where this code expects it and the consumed entries are not subtracted")
     ctx.floor("C15.4", "position-derived indices in the recount", n_idx, 6)
     ctx.floor("C15.4", "partial-block counts in the recount", n_part, 2)
 
